@@ -166,6 +166,10 @@ func (t *Tokenizer) Reset() {
 
 	t.line = 0
 
+	// The cached position describes the previous input: empty it
+	t.posCacheIndex = 0
+	t.posCacheColumn = 0
+
 	// Don't reset keywords as they're constant
 	t.logger = nil
 
